@@ -543,6 +543,21 @@ def driveLine (d : DriverState) (line : String) : DriverState × Option String :
     (match parseCfg rest with
      | some (cfg, now, seeds) => ({ st := some (State.init cfg now seeds), broken := false }, some ("R init | " ++ (State.init cfg now seeds).snap))
      | none => ({ st := none, broken := true }, some "R bad-cfg"))
+  | ["E", "probe-send", c] =>
+    -- terminal probe: the client parked at a full command queue is let into the real `send`; in the model it stays
+    -- parked (no step of the client is enabled) until the worker makes room
+    (match d.st, c.toNat? with
+     | some s, some i =>
+       let blocked := (match s.pend.get? i with | some (.send _) => true | some .shutdownCmd => true | _ => false) &&
+         s.worker != .dead && decide (s.queue.length ≥ s.cfg.cmdCap)
+       (d, some s!"R {if blocked then "blocked" else "moved"} | {s.snap}")
+     | _, _ => (d, some "R bad-event"))
+  | ["E", "probe-recv"] =>
+    -- terminal probe: the worker is let into the real `recv` on an empty queue; in the model the worker's step is not
+    -- enabled (and a draining worker has no step that ends it)
+    (match d.st with
+     | some s => (d, some s!"R {if s.worker != .dead && s.queue.isEmpty then "blocked" else "moved"} | {s.snap}")
+     | none => (d, some "R bad-event"))
   | "E" :: rest0 =>
     let rest := rest0.filter (fun t => !t.startsWith "#")
     if d.broken then (d, some "R skipped")
